@@ -21,24 +21,66 @@ package sniff
 //@   nilrecv
 //@   ensures ret ==> len(buf) >= 3
 
+// teeReader mirrors every byte it hands out into buf, in order: first the three bytes already
+// read (Pre), then what it reads from the stream
 //@ func (*teeReader).Read
 //@   props C03 C17
 //@   nonil
+//@   requires !isnil(c.Stream) && base(b) != base(c.Pre) && base(b) != base(c.buf)
 //@   ensures 0 <= n && n <= len(b)
-//@   modifies b[0:len(b)], c.Pre, c.buf, region("elem<uint8>")
+//@   ensures len(c.buf) == old(len(c.buf)) + n && forall(i, 0, old(len(c.buf)), c.buf[i] == old(c.buf[i])) && forall(i, 0, n, c.buf[old(len(c.buf)) + i] == b[i])
+//@   ensures old(len(c.Pre)) > 0 ==> n == min(len(b), old(len(c.Pre))) && isnil(err) && forall(i, 0, n, b[i] == old(c.Pre[i])) && len(c.Pre) == old(len(c.Pre)) - n && sel(rpos, src(payload(c.Stream))) == old(sel(rpos, src(payload(c.Stream))))
+//@   ensures old(len(c.Pre)) == 0 ==> sel(rpos, src(payload(c.Stream))) == old(sel(rpos, src(payload(c.Stream)))) + n && forall(i, 0, n, b[i] == sel(rdata, src(payload(c.Stream)), old(sel(rpos, src(payload(c.Stream)))) + i))
+//@   modifies b[0:len(b)], c.Pre, c.buf, rpos
 
 //@ func (*teeReader).Buffer
 //@   props C03 C17
 //@   nonil
+//@   ensures len(ret) == len(c.Pre) + len(c.buf) && forall(i, 0, len(c.Pre), ret[i] == c.Pre[i]) && forall(i, 0, len(c.buf), ret[len(c.Pre) + i] == c.buf[i])
 
+// TCP: on every path that does not go through net/http's request reader, the bytes handed back
+// for replay are exactly the bytes consumed from the stream, in order, and nothing else was
+// consumed; the destination changes only to JoinHostPort(name found, port of the old destination)
+//@ ghost var tcpHTTP Bool
+//@ hook call http.ReadRequest(b) in (*Sniffer).TCP
+//@   update tcpHTTP = true
+//@ hook after call net.SplitHostPort(a) (h, p, e) in (*Sniffer).TCP
+//@   update udpSplitArg = a
+//@   update udpSplitPort = p
+//@ hook after call net.JoinHostPort(h, p) (r) in (*Sniffer).TCP
+//@   update udpJoinPort = p
+//@   update udpJoined = r
 //@ func (*Sniffer).TCP
-//@   props C03
+//@   props C03 C17
 //@   nonil
-//@   requires !isnil(stream) && reqAddr != nil
+//@   requires !isnil(stream) && reqAddr != nil && !tcpHTTP
+//@   ensures !tcpHTTP && isnil(ret1) ==> sel(rpos, src(payload(stream))) == old(sel(rpos, src(payload(stream)))) + len(ret0)
+// (content is stated for the replies of at most three bytes - short reads and unrecognised
+// protocols; for the longer TLS replies, built by two appends, the solvers do not finish the
+// content proof, and only the byte count above is proved)
+//@   ensures !tcpHTTP && isnil(ret1) && len(ret0) <= 3 ==> forall(i, 0, len(ret0), ret0[i] == sel(rdata, src(payload(stream)), old(sel(rpos, src(payload(stream)))) + i))
+//@   ensures !tcpHTTP ==> *reqAddr == old(*reqAddr) || (udpSplitArg == old(*reqAddr) && *reqAddr == udpJoined && udpJoinPort == udpSplitPort)
 //@   modifies any
 
 //@ func (*Sniffer).UDP
-//@   props C03
+//@   props C03 C17
 //@   nonil
 //@   requires reqAddr != nil
-//@   modifies any
+//@   ensures forall(i, 0, len(data), data[i] == old(data[i]))
+//@   ensures *reqAddr == old(*reqAddr) || (udpSplitArg == old(*reqAddr) && *reqAddr == udpJoined && udpJoinPort == udpSplitPort)
+//@   modifies *reqAddr, rpos, rlen, rdata, rbase, roff, udpSplitArg, udpSplitPort, udpJoinPort, udpJoined
+
+// ---------------------------------------------------------------------------
+// Transparency (C17). UDP: the hook is handed the slice the server forwards next and must not
+// write to it; the destination changes only to JoinHostPort(server name, port of the original
+// destination). TCP: see below.
+//@ ghost var udpSplitArg Str
+//@ ghost var udpSplitPort Str
+//@ ghost var udpJoinPort Str
+//@ ghost var udpJoined Str
+//@ hook after call net.SplitHostPort(a) (h, p, e) in (*Sniffer).UDP
+//@   update udpSplitArg = a
+//@   update udpSplitPort = p
+//@ hook after call net.JoinHostPort(h, p) (r) in (*Sniffer).UDP
+//@   update udpJoinPort = p
+//@   update udpJoined = r
